@@ -22,7 +22,7 @@ func BeginBlocker(ctx sdk.Context, _ abci.RequestBeginBlock, k keeper.Keeper) {
 				if err != nil {
 					ctx.Logger().Error("Error in Fetch Price in 1st condition")
 				}
-				k.SetTempFetchPriceID(ctx, 0)
+				k.SetTempFetchPriceID(ctx, k.GetLastFetchPriceID(ctx))
 				k.SetCheckFlag(ctx, true)
 				k.SetOracleValidationResult(ctx, false)
 			} else {
